@@ -110,6 +110,29 @@ static void densityCase(Rng &rng, CaseResult &r) {
     if (area1 != area0) r.fail("C18:density-changed-with-no-area", "");
     sig += "0";
   }
+  if (r.viol.empty() && rng.chance(0.35)) {
+    // the object has a past: after the first expansion some cells are turned / moved / re-flagged through the public setters, then
+    // a second expansion is asked for. It must equal the same call on a circuit built afresh from the data visible at that time.
+    std::vector<CellOrientation> oo = c.cellOrientation_;
+    std::vector<int> xx = c.cellX_;
+    std::vector<bool> ob = c.cellIsObstruction_;
+    int what = (int)rng.range(0, 2);
+    for (int i = 0; i < c.nbCells(); ++i) {
+      if (!c.cellIsFixed_[i] || !rng.chance(0.7)) continue;
+      if (what == 0) oo[i] = ALL8[rng.range(0, 7)]; else if (what == 1) xx[i] += (int)rng.range(-20, 20); else ob[i] = !ob[i];
+    }
+    if (what == 0) c.setCellOrientation(oo); else if (what == 1) c.setCellX(xx); else c.setCellIsObstruction(ob);
+    Circuit fresh(c.nbCells());
+    fresh.setCellWidth(c.cellWidth_); fresh.setCellHeight(c.cellHeight_); fresh.setCellIsFixed(c.cellIsFixed_); fresh.setCellIsObstruction(c.cellIsObstruction_);
+    fresh.setCellRowPolarity(c.cellRowPolarity_); fresh.setCellX(c.cellX_); fresh.setCellY(c.cellY_); fresh.setCellOrientation(c.cellOrientation_);
+    fresh.setRows(c.rows_); fresh.setNets(c.netLimits_, c.pinCells_, c.pinXOffsets_, c.pinYOffsets_, c.netWeights_);
+    double t2 = std::min(0.98, target + rng.unif(0.0, 0.4));
+    bool ok1 = true, ok2 = true;
+    try { c.expandCellsToDensity(t2, margin, cap); } catch (const std::exception &) { ok1 = false; }
+    try { fresh.expandCellsToDensity(t2, margin, cap); } catch (const std::exception &) { ok2 = false; }
+    if (ok1 != ok2 || c.cellWidth_ != fresh.cellWidth_) r.fail("C18:second-expansion-differs-from-a-rebuilt-circuit", std::string("after the first expansion and a ") + (what == 0 ? "setCellOrientation" : what == 1 ? "setCellX" : "setCellIsObstruction") + " on fixed cells, expandCellsToDensity gives other widths than on a circuit rebuilt from the same data");
+    r.count("second_expansions_compared");
+  }
   r.nontrivial = widened > 0;
   r.count("cells_widened", widened);
   Features f = features(c0);
